@@ -58,6 +58,26 @@ Definition spec_length (fs rfs : Q) (out : N) (v : value) : value :=
   | _ => v
   end.
 
+(* CSS Values 3 section 5.1.1, font-relative lengths that need the font itself:
+     ex  "equal to the used x-height of the first available font"
+     ch  "equal to the used advance measure of the 0 (ZERO, U+0030) glyph found in the font used to render it"
+   xh, zw: x-height and advance of "0" of the element's font at a font size of 1 (they scale
+   linearly with the font size); fs: the font size `em` refers to for that property. *)
+Definition spec_font_metric_length (fs xh zw : Q) (out : N) (v : value) : value :=
+  match v with
+  | VDim s q u =>
+      if negb (s ==s "") then v
+      else if u =? U_Ex then VDim "" (q * (fs * xh)) out
+      else if u =? U_Ch then VDim "" (q * (fs * zw)) out
+      else v
+  | _ => v
+  end.
+
+(* the fonts of the harness (resources_test): Ahem has an x-height of 0.8 em and every glyph
+   1 em wide (https://web-platform-tests.org/writing-tests/ahem.html); weasyprint.otf: x-height
+   0.7998 em once rounded to 5 decimals (OS/2 sxHeight), "0" 1 em wide *)
+Definition known_font_metrics : list (Q * Q) := [(8 # 10, 1); (7998 # 10000, 1)]%Q.
+
 (* ------------------------------------------------------------------ fonts *)
 
 (* CSS Fonts 3 section 3.5: scaling factors of the <absolute-size> keywords *)
@@ -135,6 +155,17 @@ Definition spec_border_width (style : string) (fs rfs : Q) (v : value) : value :
            end
        | _ => v
        end.
+
+(* CSS Paged Media 3 / GCPM `bleed`: "auto: computes to 6pt if marks has crop and to zero
+   otherwise"; a <length> is made absolute.  crop: the `crop` flag of the computed `marks` of
+   the same page context (marks: crop | cross | crop cross | none). *)
+Definition spec_bleed (crop : bool) (fs rfs : Q) (v : value) : value :=
+  match v with
+  | VDim s q u =>
+      if s ==s "auto" then VDim "" (if crop then 6 * (css_inch / 72) else 0)%Q U_Px
+      else spec_length fs rfs U_Px v
+  | _ => v
+  end.
 
 (* CSS 2.1 10.8.1: normal and <number> are kept, a percentage refers to the font
    size of the element, lengths are absolute *)
